@@ -8,7 +8,7 @@ import (
 
 func init() {
 	register(&Property{ID: "C05", Run: runC05,
-		Explain: "Announcement bookkeeping decided for every operation history as pairing/guard/ownership rules: (R05.1) announce and rt.Join/rt.Leave are called only by the four subscription/relay handlers, announce(t,true) always together with rt.Join and after disc.Advertise, announce(t,false) with rt.Leave and disc.StopAdvertise; (R05.2) the subscribe-side pair happens exactly when no subscription and no relay existed (and the topic is not fanout-only), the unsubscribe-side pair exactly when the last one went away — both directions: dominance of the pair by the guard, and every path not refuting the guard performs the pair; myRelays is incremented only by handleAddRelay, decremented only by handleRemoveRelay under a non-zero test and deleted when it reaches zero; mySubs entries are created/deleted only by the subscription handlers; (R05.3) a cancelled subscription's error is stored before its channel is closed, Next reports it on the closed edge, close is once-only; (R05.4) the first message on a new outbound stream is the hello packet (through the router hook) and the writer sends it before popping the queue; getHelloPacket lists every subscription (except fanout-only topics) and every relay; (R05.5) a retried announcement is re-sent only if the current interest state still equals the announced one (path table of the retry thunk), through the event loop; (R05.6) remote interest bookkeeping (inner maps of p.topics) is written only by handleIncomingRPC and clearPeerFromTopicsState, is processed before and independently of the router's AcceptFrom verdict, every removal of a peer's queue is paired with clearPeerFromTopicsState and rt.OnClosedOutboundStream, and a closed inbound stream always clears the peer's topic state. NOT decided: convergence once the network is quiet, ordering of hello vs queued announcements across goroutines.",
+		Explain: "Announcement bookkeeping decided for every operation history as pairing/guard/ownership rules: (R05.1) announce and rt.Join/rt.Leave are called only by the four subscription/relay handlers, announce(t,true) always together with rt.Join and after disc.Advertise, announce(t,false) with rt.Leave and disc.StopAdvertise; (R05.2) the subscribe-side pair happens exactly when no subscription and no relay existed (and the topic is not fanout-only), the unsubscribe-side pair exactly when the last one went away — both directions: dominance of the pair by the guard, and every path not refuting the guard performs the pair; the un-announcement additionally requires that a subscription set existed (a handle cancelled twice does not announce or Leave again); myRelays is incremented only by handleAddRelay, decremented only by handleRemoveRelay under a non-zero test and deleted when it reaches zero; mySubs entries are created/deleted only by the subscription handlers; (R05.3) a cancelled subscription's error is stored before its channel is closed, Next reports it on the closed edge, close is once-only; (R05.4) the first message on a new outbound stream is the hello packet (through the router hook) and the writer sends it before popping the queue; getHelloPacket lists every subscription (except fanout-only topics) and every relay; (R05.5) a retried announcement is re-sent only if the current interest state still equals the announced one (path table of the retry thunk), through the event loop, and an announcement whose queue push failed — in announce and in the retry itself — is always scheduled for another retry for the same peer, topic and flag; (R05.6) remote interest bookkeeping (inner maps of p.topics) is written only by handleIncomingRPC and clearPeerFromTopicsState, is processed before and independently of the router's AcceptFrom verdict, every removal of a peer's queue is paired with clearPeerFromTopicsState and rt.OnClosedOutboundStream, and a closed inbound stream always clears the peer's topic state. NOT decided: convergence once the network is quiet, ordering of hello vs queued announcements across goroutines.",
 		Assume:  []string{"the event loop owns mySubs/myRelays/topics (single-threaded)"},
 		Mutants: []Mutant{
 			{Name: "addsub-announce-without-join", File: "pubsub.go", Old: "\t\t\tp.announce(sub.topic, true)\n\t\t\tp.rt.Join(sub.topic)\n", New: "\t\t\tp.announce(sub.topic, true)\n\t\t\tif len(p.peers) > 0 {\n\t\t\t\tp.rt.Join(sub.topic)\n\t\t\t}\n", Expect: "R05.1"},
@@ -19,6 +19,8 @@ func init() {
 			{Name: "cancel-close-before-err", File: "pubsub.go", Old: "\tsub.err = ErrSubscriptionCancelled\n\tsub.close()\n", New: "\tsub.close()\n\tsub.err = ErrSubscriptionCancelled\n", Expect: "R05.3"},
 			{Name: "hello-skips-router-hook", File: "pubsub.go", Old: "\t\t\thelloPacket = p.rt.OnNewOutboundStream(pid, s.Protocol(), helloPacket)\n\t\t\ts.FirstMessage <- helloPacket", New: "\t\t\t_ = p.rt.OnNewOutboundStream(pid, s.Protocol(), helloPacket)\n\t\t\ts.FirstMessage <- &RPC{}", Expect: "R05.4"},
 			{Name: "hello-announces-fanout-only", File: "comm.go", Old: "\t\tif topic := p.myTopics[t]; topic != nil && topic.fanoutOnly {\n\t\t\tcontinue\n\t\t}\n", New: "", Expect: "R05.4"},
+			{Name: "retry-not-rearmed", File: "pubsub.go", Old: "\t\tp.tracer.DropRPC(out, pid)\n\t\tgo p.announceRetry(pid, topic, sub)\n\t\treturn\n", New: "\t\tp.tracer.DropRPC(out, pid)\n\t\treturn\n", Expect: "R05.5"},
+			{Name: "double-cancel-unannounces", File: "pubsub.go", Old: "\tif subs == nil {\n\t\treturn\n\t}\n\n\tsub.err = ErrSubscriptionCancelled", New: "\tsub.err = ErrSubscriptionCancelled", Expect: "R05.2"},
 			{Name: "retry-unsub-always", File: "pubsub.go", Old: "\t\tif (ok && sub) || (!ok && !sub) {\n\t\t\tp.doAnnounceRetry(pid, topic, sub)\n\t\t}", New: "\t\tif ok && !sub {\n\t\t\treturn\n\t\t}\n\t\tp.doAnnounceRetry(pid, topic, sub)", Expect: "R05.5"},
 			{Name: "acceptfrom-before-subscriptions", File: "pubsub.go", Old: "\tp.tracer.RecvRPC(rpc)\n\n\tsubs := rpc.GetSubscriptions()", New: "\tp.tracer.RecvRPC(rpc)\n\n\tif p.rt.AcceptFrom(rpc.from) == AcceptNone {\n\t\treturn\n\t}\n\tsubs := rpc.GetSubscriptions()", Expect: "R05.6"},
 			{Name: "closed-incoming-keeps-topics", File: "pubsub.go", Old: "\tp.clearPeerFromTopicsState(pid)\n\tp.rt.OnClosedIncomingStream(pid, proto)", New: "\tif _, ok := p.peers[pid]; !ok {\n\t\tp.clearPeerFromTopicsState(pid)\n\t}\n\tp.rt.OnClosedIncomingStream(pid, proto)", Expect: "R05.6"},
@@ -194,6 +196,12 @@ func runC05(c *RuleCtx) {
 			for _, e := range g.AtomEdges(subsNil, true) {
 				cut[e] = true
 			}
+			// … and conversely the un-announcement happens only for a topic that had a subscription set: cancelling a
+			// handle twice (or one whose topic has no subscriptions left) must not announce / Leave a second time
+			hadSubs, why := p.DomAny(f, a.Call, AtomWant{subsNil, false}, AtomWant{AtomBool("subscription was registered", func(v *V) bool {
+				return v != nil && v.Kind == "lookupok" && ((v.Args[0].Kind == "index" || v.Args[0].Kind == "lookupval") && v.Args[0].Args[0].IsField("PubSub.mySubs") || v.Args[0].IsField("PubSub.mySubs"))
+			}), true})
+			c.Check(hadSubs, "R05.2", f.Name, "un-announce only when a subscription was actually removed", a.Call, why, "the unsubscribe announcement / router Leave can run for a topic that has no subscription set (a handle cancelled twice): peers and the trace see a second LEAVE: "+why)
 		}
 		if sd.fn == handlers[3] {
 			// the entry test `myRelays[topic] == 0` (nothing to cancel) precedes the decrement; only the test after the decrement is the guard
@@ -389,6 +397,43 @@ func runC05(c *RuleCtx) {
 		}
 	}
 	// R05.5 retry re-validation
+	// R05.5 (re-arm): an announcement whose queue push failed is always scheduled for (another) retry —
+	// in announce and in the retry itself — for the same peer, topic and flag
+	for _, fn := range []string{fnAnnounce, "(*PubSub).doAnnounceRetry"} {
+		f := c.MustFn("R05.5", fn)
+		if f == nil {
+			continue
+		}
+		g := p.Graph(f)
+		pushes := p.Sites(f, false, "(*rpcQueue).Push", "(*rpcQueue).UrgentPush")
+		if len(pushes) == 0 {
+			c.Undecided("R05.5", f.Name, "announcement push", f.Decl, "no queue push found")
+		}
+		np := 0
+		for paramObj(f, np) != nil {
+			np++
+		}
+		for _, ps := range pushes {
+			failed := AtomCmp("push error != nil", func(v *V) bool { return v != nil && v.Kind == "call" && v.Node == ast.Node(ps.Call) }, "!=", isNilV)
+			edges := g.AtomEdges(failed, true)
+			if len(edges) == 0 {
+				c.Bad("R05.5", f.Name, "failed announcement re-armed", ps.Call, "the result of the announcement push is not tested")
+				continue
+			}
+			isRearm := func(n ast.Node) bool {
+				gs, ok := n.(*ast.GoStmt)
+				if !ok || p.CalleeName(f.Info(), gs.Call) != "(*PubSub).announceRetry" || len(gs.Call.Args) != 3 {
+					return false
+				}
+				// same topic and flag as the announcement being made (the last two parameters of both functions)
+				return isParam(f, np-2)(p.R(f).Val(gs.Call.Args[1])) && isParam(f, np-1)(p.R(f).Val(gs.Call.Args[2]))
+			}
+			for _, e := range edges {
+				ok, _ := g.MustPass(EdgeTarget(e), PassOpts{Until: p.iterationUntil(f, ps.Call)}, isRearm)
+				c.Check(ok, "R05.5", f.Name, "failed announcement re-armed", ps.Call, "every path from the failed push schedules announceRetry(peer, topic, flag)", "an announcement dropped because the peer's queue was full is not scheduled for a retry: the peer never learns of the (un)subscription")
+			}
+		}
+	}
 	if f := c.MustFn("R05.5", "(*PubSub).announceRetry"); f != nil {
 		var thunk *Func
 		for _, ch := range f.Children {
@@ -583,10 +628,10 @@ func runC05(c *RuleCtx) {
 		}
 	}
 	c.Min["R05.1"] = 11
-	c.Min["R05.2"] = 18
+	c.Min["R05.2"] = 19
 	c.Min["R05.3"] = 4
 	c.Min["R05.4"] = 6
-	c.Min["R05.5"] = 3
+	c.Min["R05.5"] = 5
 	c.Min["R05.6"] = 11
 }
 
